@@ -106,4 +106,28 @@ theorem dec_bad_utf8_map_key {S : Schema} {mi : Nat} {m : Msg} {f kf vf : Field}
     exact decField_map_err_gen (fu + 1) hc hd (decBytes_enc' hbody rest) hkf hvf
       (decEntry_bad_utf8 (Or.inl ⟨rfl, rfl⟩) hk hu hp hbad restE (depth - 1) dis fu)
 
+/-- a map entry whose (scalar) value is an enforced string with invalid UTF-8 is rejected -/
+theorem dec_bad_utf8_map_value {S : Schema} {mi : Nat} {m : Msg} {f kf vf : Field}
+    (hfind : (S.msg mi).find f.num = some f) (h1 : 1 ≤ f.num) (h2 : f.num ≤ maxValidNumber)
+    (hc : f.card = .map) (hkf : (S.msg f.sub).find 1 = some kf) (hvf : (S.msg f.sub).find 2 = some vf)
+    (hk : vf.kind = .string) (hu : vf.utf8 = true) {p restE : List Byte} (hp : p.length < 2 ^ 64)
+    (hbad : utf8Valid p = false) (hbody : (tagBytes 2 2 ++ (encVarint p.length ++ (p ++ restE))).length < 2 ^ 64)
+    (rest : List Byte) (depth : Int) (hd : ¬ depth - 1 < 0) (dis : Bool) :
+    DecTo S mi depth dis m
+      (tagBytes f.num 2 ++ (encVarint (tagBytes 2 2 ++ (encVarint p.length ++ (p ++ restE))).length ++
+        ((tagBytes 2 2 ++ (encVarint p.length ++ (p ++ restE))) ++ rest))) (.error .utf8) := by
+  refine DecTo_known_err h1 h2 (by omega) hfind ?_
+  intro fuel hf
+  have htag := tagBytes_pos f.num 2
+  have hvl := encVarint_length_pos (tagBytes 2 2 ++ (encVarint p.length ++ (p ++ restE))).length
+  have hkt := tagBytes_pos 2 2
+  simp only [List.length_append] at hf hvl
+  have hvm : vf.kind.isMessage = false := by simp [hk, Kind.isMessage]
+  match fuel, hf with
+  | 0, hf => omega
+  | 1, hf => omega
+  | fu + 2, _ =>
+    exact decField_map_err_gen (fu + 1) hc hd (decBytes_enc' hbody rest) hkf hvf
+      (decEntry_bad_utf8 (Or.inr ⟨rfl, rfl, hvm⟩) hk hu hp hbad restE (depth - 1) dis fu)
+
 end Pb
